@@ -4,7 +4,7 @@ import json, sys
 pid, wt = sys.argv[1], sys.argv[2]
 n = sys.argv[3] if len(sys.argv) > 3 else "3"
 p = [json.loads(l) for l in open('/verif/properties.jsonl') if json.loads(l)['id'] == pid][0]
-print(f"""You are helping to evaluate a test suite's blind spots for the C library LibAST (mej/libast). You work ONLY inside the scratch git worktree {wt} (a checkout of the library that is already configured: `make -C {wt}` builds it, `make -C {wt}/test test` runs its test suite; the suite always ends with one expected failure at "spif_module_load" - everything printed before that must say "passed"). Do not read or touch /repo or /verif or any other directory; everything you need is in {wt}.
+print(f"""You are helping to evaluate a test suite's blind spots for the C library LibAST (mej/libast). You work ONLY inside the scratch git worktree {wt} (a checkout of the library that is already configured: `make -C {wt}` builds it, `make -C {wt}/test test` runs its test suite; the suite always ends with one expected failure at "spif_module_load" - everything printed before that must say "passed"; the socket tests bind a fixed TCP port, so if a run stops early at a socket test with "Address already in use" another suite run on this machine is holding the port - wait a minute and run it again). Do not read or touch /repo or /verif or any other directory; everything you need is in {wt}.
 
 Here is a semantic property the library is supposed to satisfy:
 
